@@ -147,9 +147,12 @@ def sim_collect(rep, prop, tier, rng, seed, gen_kwargs_list, n_quick, n_thorough
         metas.append(dict(settle_from=sf0, corpus=fn))
         names.append(fn)
     if custom_scripts:
-        for name, lines, settle_from in custom_scripts(rng, tier):
+        for item in custom_scripts(rng, tier):
+            name, lines, settle_from = item[:3]
             batch.append(lines)
-            metas.append(dict(settle_from=settle_from, corpus=None))
+            # an optional 4th element narrows the properties this script is judged by (scripts inside an open finding class of
+            # another property)
+            metas.append(dict(settle_from=settle_from, corpus=None, props=item[3] if len(item) > 3 else None))
             names.append(name)
     for i in range(n):
         kw = dict(gen_kwargs_list[i % len(gen_kwargs_list)])
@@ -169,7 +172,7 @@ def sim_collect(rep, prop, tier, rng, seed, gen_kwargs_list, n_quick, n_thorough
         steps, impl, model = res
         d = simlib.first_divergence(steps, impl, model)
         tr = simoracle.Trace(steps, res.raw)
-        problems = [p for p in tr.run(settle_from=meta["settle_from"]) if p["prop"] in oracle_props]
+        problems = [p for p in tr.run(settle_from=meta["settle_from"]) if p["prop"] in (meta.get("props") or oracle_props)]
         for k, v in getattr(tr, "stats", {}).items():
             stats_total[k] = stats_total.get(k, 0) + v
         if getattr(tr, "stats", {}).get("mut", 0) >= 2 and getattr(tr, "stats", {}).get("upd", 0) >= 2:
